@@ -17,6 +17,8 @@ theorem sz_single (x : Nlri) : sz [x] = x.size := by simp
 /-- every item has a positive packed length (a prefix is at least its mask byte) -/
 def Pos (l : List Nlri) : Prop := ∀ x ∈ l, 0 < x.size
 
+instance (l : List Nlri) : Decidable (Pos l) := by unfold Pos; exact inferInstance
+
 theorem sz_eq_zero_of_pos {l : List Nlri} (h : Pos l) : sz l = 0 ↔ l = [] := by
   cases l with
   | nil => simp
